@@ -61,6 +61,9 @@ def run_case(version, explicit_kind, transport, typ, until, C: Counter):
         explicit = version if version is not None else "1"
     elif explicit_kind == "different":
         explicit = "2.0" if vlist(version) >= [3] else "3.0"
+    elif explicit_kind == "minor_different":
+        v = vlist(version)
+        explicit = f"{v[0]}.{(v[1] if len(v) > 1 else 0) + 1}"
     tmp = None
     cfg: Dict[str, Any] = {"version": version, "type": typ}
     if transport == "raw_socket":
@@ -192,7 +195,7 @@ def run_slice(job: dict) -> dict:
 
     k = 0
     for version in VERSIONS:
-        for ek in ("none", "equal", "different"):
+        for ek in ("none", "equal", "different", "minor_different"):
             for transport in TRANSPORTS:
                 for typ in ("hybrid", None):
                     k += 1
@@ -268,7 +271,7 @@ def decide(m, tier):
 def evidence(m, tier, seed):
     return {"level": "exploration", "coverage": {
         "rule": "version string in {absent, 1, 2, 2.0, 2.1, 2.2, 2.3, 2.10, 3, 3.0, 3.0.1, 3.1, 4, 4.0, 10.2} x explicit "
-                "api_version in {none, equal, different} x transport in {in-process v3 / v2 / strict v2 / v1 "
+                "api_version in {none, equal, different major, different minor} x transport in {in-process v3 / v2 / strict v2 / v1 "
                 "signatures, raw-socket stub process without mosaik_api_v3} x type present/absent; accepted stubs are "
                 "connected both ways to a v3 peer and run; oracle = version table (step arity, setup_done, "
                 "time_resolution in init, type default, start accepted/rejected); differential 3.0 vs old version: "
